@@ -59,9 +59,17 @@ def noise_overlay(rng, plan, spec, tids):
     import copy
     p = copy.deepcopy(plan)
     heavy = rng.random() < 0.15
+    binary = rng.random() < 0.35
     for tid in tids:
         if rng.random() < 0.7:
             acts = []
+            if binary:
+                # every chatting test also puts a complete line that is not
+                # UTF-8 on the real stderr
+                acts.append({'ph': rng.choice(['setUp', 'body', 'tearDown']),
+                             'do': 'write', 'stream': 'fd2', 'text': 'caf',
+                             'tail_hex': rng.choice(['e90a', 'fffe0a',
+                                                     '8081c30a'])})
             for _ in range(rng.randint(1, 3)):
                 text = rng.choice(NOISE_LINES)
                 if heavy and rng.random() < 0.3:
